@@ -42,6 +42,7 @@ type tvCase struct {
 		Sel struct {
 			Kind string `json:"kind"`
 			D    int    `json:"d"`
+			P    []int  `json:"p"`
 		} `json:"sel"`
 		Once   bool `json:"once"`
 		Budget int  `json:"budget"`
@@ -121,11 +122,19 @@ func (d *tvDag) Get(_ context.Context, c cid.Cid) (blocks.Block, error) {
 	return blocks.NewBlockWithCid(b, c)
 }
 
-func tvSelector(kind string, depth int) datamodel.Node {
+func tvSelector(kind string, depth int, p []int) datamodel.Node {
 	if kind == "all" {
 		return selectorparse.CommonSelector_ExploreAllRecursively
 	}
 	ssb := builder.NewSelectorSpecBuilder(basicnode.Prototype.Any)
+	if kind == "path" {
+		// a node is the list [tag, link1, link2, ...]: the k-th link is list index k
+		spec := ssb.Matcher()
+		for i := len(p) - 1; i >= 0; i-- {
+			spec = ssb.ExploreIndex(int64(p[i]), spec)
+		}
+		return spec.Node()
+	}
 	return ssb.ExploreRecursive(selector.RecursionLimitDepth(int64(depth)), ssb.ExploreAll(ssb.ExploreRecursiveEdge())).Node()
 }
 
@@ -171,7 +180,7 @@ func runTraversalCase(c *tvCase, dir string, rep *Report) []tvViol {
 	order := []string{"n1", "n2", "n3", "n4"}[:len(c.Kids)]
 	d := buildTvDag(c.Kids, order)
 	root := d.cids["n1"]
-	sel := tvSelector(c.Opt.Sel.Kind, c.Opt.Sel.D)
+	sel := tvSelector(c.Opt.Sel.Kind, c.Opt.Sel.D, c.Opt.Sel.P)
 	h := fnv.New32a()
 	h.Write([]byte(canon(c.Kids) + canon(c.Opt)))
 	variant := h.Sum32()
